@@ -107,6 +107,10 @@ def make_handler_setup(meth, mode):
     return setup
 
 
+def codes(sess):
+    return [r[0] for r in sess.replies]
+
+
 def handler_exit(S, outcome):
     sess = S.vars["sess"]
     it = S.it
@@ -115,6 +119,10 @@ def handler_exit(S, outcome):
         exc = outcome[1]
         ok = {"PathIOError", "CancelledError"}
         name = exc.cls.name
+        if name == "PathIOError":
+            # C13(a): the dispatcher answers 451; the handler must not have announced success for this command
+            cs = codes(sess)
+            it.ctx.check(f"{S.contract.qualname}/raises:PathIOError:no-success-reply-before-451", z3.BoolVal(not any(c[:1] in "123" for c in cs)), info={"props": ["C13", "C05"]})
         if name not in ok:
             it.ctx.check(f"{S.contract.qualname}/raises:unexpected-{name}", z3.BoolVal(False), info={"props": ["C05", "C19"], "exc": name})
 
@@ -143,10 +151,48 @@ def pasv_exit(S, outcome):
             ctx.check(f"{name}/exit:no-421-without-exhaustion", z3.BoolVal("421" not in cs), info={"props": ["C11"]})
 
 
+def greeting_exit(S, outcome):
+    """C10 at session start: beyond the limit -> 421, not counted; otherwise 220 and exactly one slot"""
+    handler_exit(S, outcome)
+    sess = S.vars["sess"]
+    it = S.it
+    ctx = it.ctx
+    if outcome[0] != "return":
+        return
+    res = outcome[1]
+    cs = codes(sess)
+    acq = sess.conn.slots["acquired"].fut.value
+    acq_t = it.truthy_term(acq)
+    ac = sess.server.fields["available_connections"]
+    v0 = S.vars["value0"]
+    v1 = it.unbox(ac.fields["value"])
+    tag = {"props": ["C10"]}
+    if res is False:
+        ctx.check("Server.greeting/exit:refused-is-421-and-not-counted", tt(b_and(cs == ["421"], b_not(acq_t), True if v0 is None else v1.t == v0.t)), info=tag)
+        ctx.check("Server.greeting/exit:refused-only-when-full", tt(False if v0 is None else v0.t == 0), info=tag)
+    else:
+        ctx.check("Server.greeting/exit:admitted-is-220-and-counted-once", tt(b_and(cs == ["220"], acq_t, True if v0 is None else v1.t == v0.t - 1)), info=tag)
+        ctx.check("Server.greeting/exit:admitted-only-when-a-slot-is-free", tt(True if v0 is None else v0.t > 0), info=tag)
+
+
 def define_handler_units():
+    c = contract(SERVER, "Server.greeting", props=["C10", "C05"], name="Server.greeting#SEQ")
+
+    def setup_greeting(u):
+        f, args, kw, vars = make_handler_setup("greeting", "SEQ")(u)
+        sess = vars["sess"]
+        # session start: the slot has not been taken yet
+        u.assume(z3.Not(tt(u.it.truthy_term(sess.conn.slots["acquired"].fut.value))))
+        vars["value0"] = u.it.unbox(sess.server.fields["available_connections"].fields["value"])
+        return f, args, kw, vars
+
+    c.setup = setup_greeting
+    c.uses = [(SERVER, "AvailableConnections.locked"), (SERVER, "AvailableConnections.acquire")]
+    c.exit_hook = greeting_exit
+    c.raises = {"PathIOError": [], "CancelledError": [], "Exception": []}
     for verb, meth in VERBS.items():
         for mode in ("SEQ",):
-            c = contract(SERVER, f"Server.{meth}", props=["C03", "C05", "C11"], name=f"Server.{meth}#{mode}")
+            c = contract(SERVER, f"Server.{meth}", props=["C03", "C05", "C11", "C13"] + (["C10"] if meth == "user" else []) + (["C14"] if meth == "abor" else []), name=f"Server.{meth}#{mode}")
             c.setup = make_handler_setup(meth, mode)
             c.uses = [(SERVER, "Server.get_paths"), (SERVER, "User.get_permissions#summary"), (SERVER, "Server._start_passive_server")]
             c.exit_hook = pasv_exit if meth in ("pasv", "epsv") else handler_exit
